@@ -343,6 +343,11 @@ func MakeSimple(c Class, serial int) MV {
 	case strings.HasPrefix(string(c), "s:"):
 		return Some{MakeSimple(c[2:], serial)}
 	}
+	if len(c) > 1 && c[0] == 's' && c[1] >= '0' && c[1] <= '9' {
+		var n uint32
+		fmt.Sscanf(string(c[1:]), "%d", &n)
+		return Str{StrOfSize(n, tag)}
+	}
 	switch c {
 	case "t":
 		return Scalar{uint64(serial % 24)}
@@ -356,8 +361,6 @@ func MakeSimple(c Class, serial int) MV {
 		return Scalar{1<<32 + uint64(serial)}
 	case "h": // half of what an inlined child array can hold at the array inline limit
 		return Str{StrOfSize((maxArr-17)/2, tag)}
-	case "s10":
-		return Str{StrOfSize(10, tag)}
 	case "mid":
 		return Str{StrOfSize(target/4, tag)}
 	case "third":
